@@ -85,3 +85,41 @@ Example C11_parse_example :
   (exists hs, parse_file good = Some hs /\ length hs = 2%nat)
   /\ parse_file (removelast (removelast (removelast good))) = None.
 Proof. cbv zeta. split; [eexists; split; vm_compute; reflexivity|vm_compute; reflexivity]. Qed.
+
+(* ---- the announce gates of the three trackers (system-level models) ---- *)
+From Aquatic Require Import HttpSwarm HttpConn WsSwarm WsRouting Layout UdpCodec UdpCodecFacts UdpHandler UdpHandlerFacts.
+
+(* http: a forbidden torrent is refused by the socket worker and no swarm worker state changes;
+   a permitted announce is what the swarm workers make of it *)
+Theorem C11_http_gate : forall mode acl cfg cut k ws op,
+  (http_forbidden mode acl op = true -> sys_gate mode acl cfg cut k ws op = Ok (ws, GFailureNotAllowed))
+  /\ (http_forbidden mode acl op = false ->
+      sys_gate mode acl cfg cut k ws op = match sys_step cfg cut k ws op with Ok (ws', out) => Ok (ws', GOut out) | Panic => Panic end).
+Proof.
+  intros mode acl cfg cut k ws op. unfold sys_gate. split; intros ->; [reflexivity|].
+  destruct (sys_step cfg cut k ws op) as [[ws' out]|]; reflexivity.
+Qed.
+Print Assumptions C11_http_gate.
+
+(* WebTorrent: the error (kind 4), no bookkeeping, no swarm worker touched *)
+Theorem C11_ws_gate : forall mode acl cfg cut ae k y who c rq,
+  find_conn who (y_conns y) = Some c ->
+  (allows mode acl (q_hash rq) = false -> wsys_gate mode acl cfg cut ae k y who (CAnnounce rq) = Ok (y, [DErr (fst who) (snd who) 4]))
+  /\ (allows mode acl (q_hash rq) = true -> wsys_gate mode acl cfg cut ae k y who (CAnnounce rq) = wsys_step cfg cut ae k y who (CAnnounce rq)).
+Proof. intros mode acl cfg cut ae k y who c rq Hc. unfold wsys_gate. rewrite Hc. split; intros ->; reflexivity. Qed.
+Print Assumptions C11_ws_gate.
+
+(* udp: with a valid connection id, a forbidden torrent gets the error reply and the state is
+   unchanged (the general statement is C06_state_changes_only_by_accepted_announce) *)
+Theorem C11_udp_gate : forall mac St da ds cfg now st from bytes vs,
+  sa_port from <> 0%N ->
+  parse_request bep15_layouts bytes (hc_max_scrape cfg) = POk (UdpCodec.RAnnounce vs) ->
+  id_valid mac cfg now (canonical from) (int_of (areq_field bep15_layouts vs "connection_id")) = true ->
+  allows (hc_acl_mode cfg) (hc_acl cfg) (be_dec (bytes_of (areq_field bep15_layouts vs "info_hash"))) = false ->
+  handle bep15_layouts mac St da ds cfg now st from bytes
+  = Ok (st, Some (SError (int_of (areq_field bep15_layouts vs "transaction_id")) not_allowed_text)).
+Proof.
+  intros mac St da ds cfg now st from bytes vs Hp Hr Hv Ha. unfold handle.
+  apply N.eqb_neq in Hp. rewrite Hp, Hr, Hv, Ha. reflexivity.
+Qed.
+Print Assumptions C11_udp_gate.
